@@ -507,6 +507,7 @@ class ProjHistory(Part):
     """Project::update_source + Project::analyse after every step  ==  a project freshly loaded from the final contents"""
     vcap = 4
     isolate = True
+    thorough_cap = 3600
 
     def __init__(self, name, steps, projects, required=('compared',), time_cap=None):
         self.name, self.steps, self.projects = name, steps, projects
